@@ -176,6 +176,10 @@ def random_traces(ctx, n, length, ids, rng, idmap=None):
         tr = []
         dcount = {}
         for _ in range(length):
+            try:
+                pass
+            finally:
+                pass
             kind = rng.choice(['put'] * 4 + ['find', 'findz', 'get', 'get', 'clear', 'len', 'contains'] + (['clear_all'] if rng.random() < 0.1 else []))
             a0, a1 = rng.choice(ids), rng.choice(ids)
             p0 = rng.choice(ids + [NONE]) if rng.random() < 0.4 else a0
@@ -210,6 +214,39 @@ def random_traces(ctx, n, length, ids, rng, idmap=None):
             tr.append(ev)
         traces.append(tr)
     return traces
+
+
+def deep_trace(depth):
+    Store = env.mods()['hh']._AdbPacketStore
+    s = Store()
+    tr = []
+
+    def proj():
+        return [{'a0': x['a0'], 'a1': x['a1'], 'q': [{'c': c, 'd': d} for c, d in x['q']]} for x in project(s)]
+    for d in range(1, depth + 1):
+        s.put(1, 2, b'WRTE', str(d).encode())
+        ev = dict(op='put', a0=1, a1=2, c='WRTE', d=d)
+        if d % 50 == 0 or d == depth:
+            ev['st'] = proj()
+            tr.append(ev)
+        if d % 97 == 0:
+            s.put(2, 2, b'OKAY', b'1')
+            c, a0, a1, dd = s.get(2, 2)
+    # only the final state of the filling phase is logged in full; then every get is checked against the model
+    tr = [dict(op='fill', a0=1, a1=2, n=depth, st=proj())]
+    for d in range(1, depth + 1):
+        try:
+            c, a0, a1, dd = s.get(1, 2)
+        except Exception as e:  # noqa
+            tr.append(dict(op='raised', what='get(1, 2) with %d packets still pending in the model: %r' % (depth - d + 1, e)))
+            break
+        ev = dict(op='get', a0=1, a1=2, res=[a0, a1], c=c.decode(), d=int(dd))
+        if d % 25 == 0 or d > depth - 3:
+            ev['st'] = proj()
+        else:
+            ev['op'] = 'getq'
+        tr.append(ev)
+    return tr
 
 
 def validate(ctx, traces, ids, label, expect_fail=False):
@@ -262,6 +299,11 @@ def body(ctx):
     big = {0: 0, 1: 1, 2: 0x7FFFFFFF, 3: 0x80000000, 4: 0xFFFFFFFE, 5: 0xFFFFFFFF}
     tr2 = random_traces(ctx, n // 3, length, ids6, rng, idmap=lambda i: big[i])
     validate(ctx, tr2, ids6, 'random ids near 2^31/2^32 (ranked)')
+    # deep queues: hundreds of packets parked for one pair while another pair is served (FIFO must hold at any depth)
+    deep = []
+    for depth in ((300,) if ctx.quick else (300, 1000)):
+        deep.append(deep_trace(depth))
+    validate(ctx, deep, [0, 1, 2], 'deep queues')
     ctx.sample(dict(kind='history', events=tr[0][:8]))
     # binding self-test: a corrupted history must be rejected
     import copy
